@@ -93,8 +93,13 @@ def check_text(arg):
                     line = obj.line
                     obj2 = fn(line, **kw)
                 except BaseException as ex:
-                    shape = ":empty-input" if not text.strip() else (":standard-entry-with-address-like-option" if name == "Ace" and "required one of" in str(ex)
-                                                                       and getattr(obj, "type", "") == "standard" else "")
+                    shape = ""
+                    if not text.strip():
+                        shape = ":empty-input"
+                    elif name == "Ace" and getattr(obj, "type", "") == "standard" and \
+                            any(t not in ("log", "log-input") for t in str(getattr(getattr(obj, "option", None), "line", "")).split()):
+                        # a standard entry that carries option tokens other than log keywords (its text then reads as an extended entry)
+                        shape = ":standard-entry-with-address-like-option"
                     fails.append(dict(key=f"bounded/{name}:rejects-own-text:{type(ex).__name__}" + shape,
                                       what=f"{name}({text[:80]!r}) returned an object whose text {str(getattr(obj, 'line', '?'))[:80]!r} the constructor rejects: {type(ex).__name__}: {str(ex)[:100]}",
                                       inputs=dict(cls=name, text=text[:300], platform=platform),
